@@ -553,5 +553,62 @@ class Quotings(Part):
         return res
 
 
+class GluedAfterQuote(Part):
+    name = "quoted_secret_glued_to_following_text"
+    desc = ("one $9$ / $1$ secret bare on a recognised line and, in the same run, quoted on lines no keyword pattern "
+            "recognises where the closing quote is directly followed by more text (compact JSON, two quoted values "
+            "separated by a comma only, ...): one replacement everywhere, the glued text stays")
+
+    # (text before the secret, text after it); the secret itself sits between them.  Only double quotes delimit
+    # here: what else counts as "surrounding punctuation" of an unrecognised line ('(', '<', ...) is the
+    # implementation's choice (its enclosing-text set), and a secret glued to such a character is a different token
+    SHAPES = [('{"value":"', '","port":1812}'), ('"a":"', '","b":"x"'), ('x="', '",y=1'), ('["', '","other"]'),
+              ('foo "', '"bar'), ('"', '"'), ('"', '",'), ('"', '"}'), ('"', '"]'), ('k: "', '"/* old */'),
+              ('"v":"', '","w":"'), ('"', '":1'), ('"', '"more words here')]
+
+    def __init__(self, tier, seed):
+        self.tier, self.seed = tier, seed
+
+    def cases(self):
+        return [{"cls": c} for c in ("juniper9", "md5")]
+
+    def run(self, case):
+        from netconan.anonymize_files import FileAnonymizer
+
+        res = Res()
+        S = refs.j9_encode("hunter2", "Q") if case["cls"] == "juniper9" else "$1$ab12cd34$cdXefghijklmnopqrstuvw"
+        first = ("set system x secret %s" if case["cls"] == "juniper9" else "enable secret 5 %s") % S
+        shapes = self.SHAPES if "shapes" not in case else [tuple(x) for x in case["shapes"]]
+        # twice each: the second occurrence of a shape must not get a new replacement either
+        lines = [first] + [h + S + t for h, t in shapes] + [h + S + t for h, t in shapes] + [first]
+        with seams.capture_logs():
+            fa = FileAnonymizer(anon_pwd=True, anon_ip=False, salt="saltForTest")
+            out = io.StringIO()
+            fa.anonymize_io(io.StringIO("".join(l + "\n" for l in lines)), out)
+        got = out.getvalue().split("\n")[:-1]
+        res.states = 1
+        res.transitions = len(lines)
+        pre = first[: -len(S)]
+        base = canon_repl(got[0][len(pre):]) if got[0].startswith(pre) else None
+        if base is None or got[0] == first or got[-1] != got[0]:
+            res.violation("recognised-line-not-anonymized-consistently", "%r -> %r / %r" % (first, got[0], got[-1]), case)
+            return res
+        for (h, t), ln, g in zip(shapes + shapes, lines[1:-1], got[1:-1]):
+            res.evals += 1
+            res.nt((case["cls"], h, t))
+            ok_shape = g.startswith(h) and g.endswith(t) and len(g) >= len(h) + len(t)
+            rep = canon_repl(g[len(h): len(g) - len(t)]) if ok_shape else None
+            res.out((ok_shape, rep == base))
+            if not ok_shape:
+                res.violation("text-glued-to-the-quoted-secret-changed", "%r -> %r" % (ln, g), dict(case, shapes=[[h, t]]))
+            elif rep != base:
+                res.violation("equal-secrets-different-replacements|glued-after-quote",
+                              "secret %r on %r -> %r, written %r -> %r" % (S, first, got[0], ln, g), dict(case, shapes=[[h, t]]))
+        if "shapes" not in case:
+            res.samples.append({"case": case, "shapes": len(shapes)})
+        return res
+
+
 def parts(tier, seed):
-    return [HistoryPart(tier, seed), SaltChars(tier, seed), LongHistory(tier, seed), NearPlaintexts(tier, seed), LongLines(tier, seed), Quotings(tier, seed)]
+    return [HistoryPart(tier, seed), SaltChars(tier, seed), LongHistory(tier, seed), NearPlaintexts(tier, seed), LongLines(tier, seed), Quotings(tier, seed),
+            GluedAfterQuote(tier, seed)]
